@@ -76,7 +76,28 @@ def gen_params(rng, n, phase_mode, complex_amp=False, complex_trig=False):
             phis[rng.randrange(n)] = float(n + 1)
     table = {p: (tio.cdyad(rng, 1, 2, real=not complex_trig), tio.cdyad(rng, 1, 2, real=not complex_trig))
              for p in phis if p != 0.0}
+    if table and rng.random() < 0.35:
+        # "multiples of pi": every tabled phase has sin = 0 exactly and cos = -1 (or another value != 1): H is a real matrix,
+        # yet the phases are non-zero and the sigma-x coefficient is Omega/2 * cos(phi), not Omega/2
+        for p in table:
+            table[p] = (rng.choice([-1.0 + 0j, -1.0 + 0j, 1.0 + 0j, tio.cdyad(rng, 1, 2, real=True)]), 0.0 + 0j)
+        if all(complex(c) == 1 for c, _ in table.values()):
+            table[next(iter(table))] = (-1.0 + 0j, 0.0 + 0j)
     return dict(n=n, om=om, de=de, U=U, phis=phis, table=table)
+
+
+def pi_phases(rng, n):
+    """phases that are integer multiples of pi with at least one odd multiple (global pi pulse, [pi, 0, pi], echo 0/pi), sometimes
+    mixed with one generic phase: H is real (or nearly) but cos(phi) = -1 on some atoms"""
+    mult = [rng.choice([0, 1, -1, 2, 3, -3, 1, 1]) for _ in range(n)]
+    if not any(m % 2 for m in mult):
+        mult[rng.randrange(n)] = rng.choice([1, -1, 3])
+    if rng.random() < 0.3:
+        mult = [mult[0] if mult[0] % 2 else 1] * n                 # a global pi pulse
+    ph = [m * math.pi for m in mult]
+    if rng.random() < 0.25 and n > 1:
+        ph[rng.randrange(n)] = rng.uniform(-3, 3)
+    return ph
 
 
 def enc_phases(tio, phis, table):
@@ -160,10 +181,10 @@ def correspondence(rep: Report, rng, tier: str) -> None:
                 dict(what="RydbergHamiltonian._create_diagonal", **ser(P)))
 
     # --- Hamiltonian with the implementation's own cos/sin (tolerance)
-    for i in range(10 if quick else 100):
+    for i in range(16 if quick else 100):
         n = rng.randint(1, 6)
         P = gen_params(rng, n, "zero")
-        P["phis"] = [rng.uniform(-3.2, 3.2) if rng.random() < 0.7 else 0.0 for _ in range(n)]
+        P["phis"] = pi_phases(rng, n) if i % 2 else [rng.uniform(-3.2, 3.2) if rng.random() < 0.7 else 0.0 for _ in range(n)]
         ph_t = torch.tensor(P["phis"], dtype=tio.C128)
         cosv, sinv, expv = torch.cos(ph_t), torch.sin(ph_t), torch.exp(1j * ph_t)
         # contract of the tape: exp(iφ) = cos φ + i sin φ, cos 0 = 1, sin 0 = 0
@@ -287,8 +308,11 @@ def oracle_case(rng, n, kind, nl=0):
     for i in range(n):
         for j in range(i + 1, n):
             P["U"][i][j] = P["U"][j][i] = rng.uniform(0, 30) * rng.choice([1.0, 1.0, 0.0, 0.01])
-    pm = rng.choice(["zero", "nonzero", "mixed"])
-    P["phis"] = [0.0 if pm == "zero" or (pm == "mixed" and rng.random() < 0.5) else rng.uniform(-math.pi, math.pi) for _ in range(n)]
+    pm = rng.choice(["zero", "nonzero", "mixed", "pi-multiples", "pi-multiples"])
+    if pm == "pi-multiples":
+        P["phis"] = pi_phases(rng, n)
+    else:
+        P["phis"] = [0.0 if pm == "zero" or (pm == "mixed" and rng.random() < 0.5) else rng.uniform(-math.pi, math.pi) for _ in range(n)]
     cosv = [math.cos(p) for p in P["phis"]]
     sinv = [math.sin(p) for p in P["phis"]]
     Hn = tio.np_dense_h([z.real for z in P["om"]], [z.real for z in P["de"]], cosv, sinv, P["U"], n)
